@@ -43,7 +43,9 @@ def _el(name, attrs, children=None, text=None, ind=2):
     if children:
         return f'{pad}<{name}{a}>\n' + ''.join(children) + f'{pad}</{name}>\n'
     if text is not None:
-        return f'{pad}<{name}{a}>{escape(text)}</{name}>\n'
+        # private-use placeholders stand for white space written as character references
+        body = escape(text).replace('\ue000', '&#13;&#10;').replace('\ue001', '&#9;').replace('\ue002', '&#13;')
+        return f'{pad}<{name}{a}>{body}</{name}>\n'
     return f'{pad}<{name}{a}/>\n'
 
 
@@ -54,6 +56,9 @@ def _xt(obj):
     t = obj['text']
     if obj.get('_preserve'):
         return [('xml:space', 'preserve')], t
+    if obj.get('_pad') == 'refs':
+        # the insignificant white space is written as character references (CR LF, TAB, a lone CR)
+        return [], '\ue000  ' + t.replace(' ', '\ue001\ue002 ', 1).replace(' ', '\ue000', 1) + ' \ue002'
     if obj.get('_pad'):
         return [], '\n        ' + t.replace(' ', ' \n          ', 1) + '  \n      '
     return [], t
